@@ -290,7 +290,27 @@ def self_test():
     fresnel.self_test()
 
 
+def thread_cases(tier):
+    return [{"N": 128}, {"N": 256}]
+
+
+def thread_body(ctx, case):
+    """Beams propagated at the same time by threads of one process (same grid size, different spacings and distances) come
+    out as when propagated one after the other - each the field of its own geometry."""
+    o = op()
+    N = case["N"]
+    ctx.case(case, nontrivial=True, classes=["N%d" % N])
+    rng = gen.np_rng(N)
+    thunks = []
+    for i in range(8):
+        u = rng.normal(size=(N, N)) + 1j * rng.normal(size=(N, N))
+        thunks.append(lambda u=u, i=i: o.angularSpectrum(u, (0.5 + 0.05 * i) * 1e-6, 1e-3 * (1 + 0.1 * i), 1e-3 * (1 + 0.1 * i) * (1 + 0.2 * (i % 2)), 5.0 * (1 + i)))
+    with np.errstate(all="ignore"):
+        ctx.thread_agreement(thunks, "angularSpectrum")
+
+
 LAWS = [
+    plain_law("threads", thread_cases, thread_body, shards={"quick": 2, "thorough": 2}),
     given_law("gaussian_xl", gauss_cases((256, 384)), gauss_body, {"quick": 0, "thorough": 12}, shards={"quick": 1, "thorough": 16}),
     given_law("group", group_cases(), group_body, {"quick": 300, "thorough": 3750}, shards={"quick": 3, "thorough": 16}),
     given_law("differential", diff_cases(), diff_body, {"quick": 400, "thorough": 6250}, shards={"quick": 3, "thorough": 16}),
